@@ -62,6 +62,14 @@ class NativeLock:
     def acquire(self, blocking=True, timeout=-1):
         if self.held:
             if blocking and timeout == -1:
+                hook = getattr(self, 'on_block', None)
+                if hook is not None:
+                    # explicit schedule: the other threads' actions run (once) while this thread waits for the lock
+                    self.on_block = None
+                    hook()
+                    if not self.held:
+                        self.held = True
+                        return True
                 raise Deadlock('acquire of held lock %s' % self.name)
             return False
         self.held = True
@@ -473,8 +481,9 @@ class NativeCtx:
         self.ns.setdefault(name, e)
         return e
 
-    def lock(self, name, held=False):
+    def lock(self, name, held=False, on_block=None):
         lk = NativeLock(name, held, self.trace)
+        lk.on_block = on_block
         self.ns.setdefault(name, lk)
         return lk
 
